@@ -30,6 +30,8 @@ type depWalker struct {
 	out     map[string]bool
 	opaque  []string
 	depth   int
+	// intoCallees: the results of statically called functions of the module are followed into the callee's returns
+	intoCallees bool
 }
 
 func newDepWalker(byParam bool, structs ...string) *depWalker {
@@ -162,6 +164,21 @@ func (w *depWalker) walk(v ssa.Value) {
 		}
 		for _, a := range x.Call.Args {
 			w.walk(a)
+		}
+		if w.intoCallees {
+			if c := x.Call.StaticCallee(); c != nil && origin(c) != nil && origin(c).Pkg != nil && strings.HasPrefix(origin(c).Pkg.Pkg.Path(), modPath) {
+				g := c
+				if len(g.Blocks) == 0 {
+					g = origin(c)
+				}
+				allInstrs(g, func(z ssa.Instruction) {
+					if rr, isRR := z.(*ssa.Return); isRR {
+						for _, res := range rr.Results {
+							w.walk(res)
+						}
+					}
+				})
+			}
 		}
 	default:
 		w.opaque = append(w.opaque, fmt.Sprintf("%T", v))
@@ -617,12 +634,87 @@ func ruleC20Adder(cx *Ctx) {
 	if add == nil || val == nil || na == nil || adderF == nil {
 		return
 	}
+	// An attempt is the CompareAndSwap itself or a call of a helper that does nothing to the stripe but one such swap and
+	// returns its outcome (the delta travels through the helper's parameter).
+	casOperands := func(fn *ssa.Function, in ssa.Instruction, delta ssa.Value) bool {
+		args := callArgs(in)
+		if len(args) != 2 {
+			return false
+		}
+		ld, isCall := args[0].(*ssa.Call)
+		if !isCall || !isStdMethod(ld, "sync/atomic", "", "Load") || !sameStripeAddr(recvValue(ld), recvValue(in)) {
+			return false
+		}
+		b, isB := args[1].(*ssa.BinOp)
+		return isB && b.Op == token.ADD && ((b.X == args[0] && b.Y == delta) || (b.Y == args[0] && b.X == delta))
+	}
+	isCAS := func(in ssa.Instruction) bool {
+		return isStdMethod(in, "sync/atomic", "", "CompareAndSwap") && sameField(recvField(in), adderF)
+	}
+	// attemptHelper: the parameter index carrying the delta when h is a single-attempt helper, -1 otherwise
+	attemptHelper := func(h *ssa.Function) int {
+		if h == nil || len(h.Blocks) == 0 {
+			return -1
+		}
+		var cas []ssa.Instruction
+		allInstrs(h, func(in ssa.Instruction) {
+			if isCAS(in) {
+				cas = append(cas, in)
+			}
+		})
+		if len(cas) != 1 {
+			return -1
+		}
+		allRet := true
+		allInstrs(h, func(in ssa.Instruction) {
+			if r, isR := in.(*ssa.Return); isR && !(len(r.Results) == 1 && r.Results[0] == cas[0].(ssa.Value)) {
+				allRet = false
+			}
+		})
+		if !allRet {
+			return -1
+		}
+		for i, prm := range h.Params {
+			if casOperands(h, cas[0], prm) {
+				return i
+			}
+		}
+		return -1
+	}
+	helpers := map[*ssa.Function]bool{}
 	// census of stripe writers
 	for _, fn := range cx.P.ModuleFuncs() {
 		allInstrs(fn, func(in ssa.Instruction) {
 			for _, op := range []string{"Add", "Store", "Swap", "CompareAndSwap", "And", "Or"} {
 				if isStdMethod(in, "sync/atomic", "", op) && sameField(recvField(in), adderF) {
-					cx.R.Check(origin(fn) == origin(add) && op == "CompareAndSwap", rule, funcName(fn), "writer of astripe.adder ("+op+")", cx.P.where(in), "a stripe is changed only by the CompareAndSwap of Adder.Add")
+					okW := origin(fn) == origin(add) && op == "CompareAndSwap"
+					if !okW && op == "CompareAndSwap" && attemptHelper(fn) >= 0 {
+						okW = true
+						helpers[origin(fn)] = true
+					}
+					cx.R.Check(okW, rule, funcName(fn), "writer of astripe.adder ("+op+")", cx.P.where(in), "a stripe is changed only by the CompareAndSwap of Adder.Add")
+				}
+			}
+		})
+	}
+	for _, fn := range cx.P.ModuleFuncs() {
+		if origin(fn) == origin(add) {
+			continue
+		}
+		allInstrs(fn, func(in ssa.Instruction) {
+			if c, isC := in.(ssa.CallInstruction); isC {
+				if sc := c.Common().StaticCallee(); sc != nil && helpers[origin(sc)] {
+					cx.R.Check(false, rule, funcName(fn), "caller of the attempt helper "+funcName(sc), cx.P.where(in), "a stripe is changed only on behalf of Adder.Add")
+				}
+			}
+		})
+		allInstrs(fn, func(in ssa.Instruction) {
+			for _, op := range in.Operands(nil) {
+				if f, isF := (*op).(*ssa.Function); isF && helpers[origin(f)] {
+					if cc := callCommon(in); cc != nil && cc.Value == *op {
+						continue
+					}
+					cx.R.Check(false, rule, funcName(fn), "attempt helper used as a value", cx.P.where(in), "a stripe is changed only on behalf of Adder.Add")
 				}
 			}
 		})
@@ -631,22 +723,19 @@ func ruleC20Adder(cx *Ctx) {
 	success := map[*ssa.BasicBlock]bool{}
 	nCAS := 0
 	allInstrs(add, func(in ssa.Instruction) {
-		if !(isStdMethod(in, "sync/atomic", "", "CompareAndSwap") && sameField(recvField(in), adderF)) {
-			return
+		okArgs := false
+		switch {
+		case isCAS(in):
+			okArgs = casOperands(add, in, bparam(add, 1))
+		default:
+			c, isC := in.(*ssa.Call)
+			if !isC || c.Call.StaticCallee() == nil || !helpers[origin(c.Call.StaticCallee())] {
+				return
+			}
+			i := attemptHelper(c.Call.StaticCallee())
+			okArgs = i >= 0 && i < len(c.Call.Args) && c.Call.Args[i] == ssa.Value(bparam(add, 1))
 		}
 		nCAS++
-		args := callArgs(in)
-		okArgs := false
-		if len(args) == 2 {
-			if ld, isCall := args[0].(*ssa.Call); isCall && isStdMethod(ld, "sync/atomic", "", "Load") && sameStripeAddr(recvValue(ld), recvValue(in)) {
-				if b, isB := args[1].(*ssa.BinOp); isB && b.Op == token.ADD {
-					d := ssa.Value(bparam(add, 1))
-					if (b.X == args[0] && b.Y == d) || (b.Y == args[0] && b.X == d) {
-						okArgs = true
-					}
-				}
-			}
-		}
 		cx.R.Check(okArgs, rule, "xsync.Adder.Add", fmt.Sprintf("CompareAndSwap #%d operands", nCAS), cx.P.where(in), "the swap replaces the count loaded from the same stripe by that count plus delta")
 		v, _ := in.(ssa.Value)
 		for _, u := range usesOf(v) {
